@@ -72,7 +72,7 @@ type scenario struct {
 	ShortYLen int    `json:"short_y_len,omitempty"`
 	Huge      int    `json:"huge,omitempty"`       // one unsolicited frame with this many data bytes inside the first burst
 	OddAccept bool   `json:"odd_accept,omitempty"` // accept: 'C' frames without the expected text / for other stations first
-	EarlyData int    `json:"early_data,omitempty"` // accept: this many data frames directly behind the 'C' frame
+	EarlyData int    `json:"early_data,omitempty"` // this many data frames directly behind the 'C' frame (accept: the connect notice, dial: the connect reply)
 	TailLie   bool   `json:"tail_lie,omitempty"`   // finally a header announcing 1 MiB followed by the end of the link
 
 	// DropInStall (end = link-drop): the link ends while the reader is stalled behind the last burst.
@@ -322,6 +322,10 @@ func (sc scenario) simConfig() simagw.Config {
 		ShortX: sc.ShortX, ShortG: sc.ShortG, ShortR: sc.ShortR, ShortYAt: sc.ShortYAt, ShortYLen: sc.ShortYLen, NoisePct: sc.NoisePct}
 	if sc.RegX {
 		cfg.RegisterReplyKind = 'x'
+	}
+	if sc.Mode == "dial" && sc.EarlyData > 0 && sc.Dial == "" {
+		// the called station greets at once: data frames back to back with the TNC's 'C' reply
+		cfg.DialGreeting = payloads(rand.New(rand.NewSource(sc.Seed^0x67726565)), sc.EarlyData, 1, 120)
 	}
 	switch sc.Dial {
 	case "refuse":
